@@ -59,11 +59,14 @@ def observe(rec):
     ae = [nm(e) for e in fr.all_edges()]
     it = [nm(e) for e in fr]
     if ae != rec["all_edges"] or it != ae:
-        bad.append({"what": "all_edges / iteration order", "expected": rec["all_edges"], "got": [ae, it]})
-    edges, g = cg._from_grid_frame(fr)
-    lat = [{"seg": nm(e), "u": min(g.edges[i]), "v": max(g.edges[i])} for i, e in enumerate(edges)]
-    if lat != rec["lattice"] or g.num_vertices != (h + 1) * (w + 1) or len(g.edges) != len(edges):
-        bad.append({"what": "graph inferred by the loop constraints", "expected": rec["lattice"], "got": lat})
+        bad.append({"what": "all_edges / iteration order", "expected": rec["all_edges"][:40], "got": [ae[:40], it[:40]]})
+    try:
+        edges, g = cg._from_grid_frame(fr)
+        lat = [{"seg": nm(e), "u": min(g.edges[i]), "v": max(g.edges[i])} for i, e in enumerate(edges)]
+        if lat != rec["lattice"] or g.num_vertices != (h + 1) * (w + 1) or len(g.edges) != len(edges):
+            bad.append({"what": "graph inferred by the loop constraints", "expected": rec["lattice"][:40], "got": lat[:40]})
+    except Exception as e:  # noqa
+        bad.append({"what": "graph inferred by the loop constraints", "expected": rec["lattice"][:10], "got": "raised " + type(e).__name__})
     d = fr.dual()
     ok_dual = isinstance(d, BoolInnerGridFrame) and d.height == h + 1 and d.width == w + 1
     if ok_dual:
